@@ -387,6 +387,7 @@ def merge_specs(recs, rng, count, quick, seed):
                 "exp": {"k": "" if res["info"] else ("merged" if res["ok"] else "mergeerr"), "n": 1 if res["ok"] else 0},
                 "info": bool(res["info"]), "cls": "%s<-%s:%s" % (rec["l"][0]["k"], rec["r"][0]["k"], "ok" if res["ok"] else "mergeerr"),
                 "delivery": delivery, "output": output, "docfmt": docfmt,
+                "policy": {"cli": {"hashes": h, "arrays": a, "aoh": o, "sets": s, "anchors": x}, "cfg": {}},
                 "want": {"out": res["out"] if res["ok"] else None, "l": rec["l"], "r": rec["r"], "cfg": cfgname},
             })
     # a single document delivered each way; the third - no YAML_FILE at all - makes the waiting STDIN document the
@@ -415,6 +416,7 @@ def merge_specs(recs, rng, count, quick, seed):
                 "tool": "merge", "argv": ["--multi-doc-mode=" + mode, "-S", "--hashes=" + h, "--arrays=" + a, "--aoh=" + o, "--sets=" + s,
                                           "lhs.yaml", "rhs.yaml"],
                 "files": {"lhs.yaml": ltext, "rhs.yaml": rtext}, "stdin": None, "o": o_of(mode=mode),
+                "policy": {"cli": {"hashes": h, "arrays": a, "aoh": o, "sets": s}, "cfg": {}},
                 "exp": {"k": "mergeerr", "n": 0}, "info": False, "cls": "mode:%s:mergeerr" % mode, "delivery": "ff",
                 "output": None, "docfmt": "auto", "want": {"out": None, "l": rec["l"], "r": rec["r"], "cfg": rec["group"]["cfgs"][0]},
             })
@@ -438,6 +440,225 @@ def merge_specs(recs, rng, count, quick, seed):
             "cls": "unreadable:%s" % ("first" if first else "later"), "delivery": "ff", "output": None, "docfmt": "auto",
             "want": {"out": None, "code": 4 if first else 3},
         })
+    return specs
+
+
+MERGE_OPTS = (("hashes", "-H", "deep"), ("arrays", "-A", "all"), ("aoh", "-O", "all"), ("sets", "-E", "unique"), ("anchors", "-a", "stop"))
+PMODES = ("cli", "config", "both", "absent")
+
+
+def _give(rng, name, short, mode, eff, decoy, cli, cfg, argv):
+    """Deliver one policy option the given way; fills cli / cfg (what the user wrote) and argv."""
+    if mode in ("cli", "both"):
+        cli[name] = eff
+        argv.append(rng.choice(["--%s=%s" % (name, eff), "%s%s" % (short, eff)]))
+    if mode == "config":
+        cfg[name] = eff
+    elif mode == "both":
+        cfg[name] = decoy
+
+
+def _ini(cfg):
+    return "[defaults]\n" + "".join("%s = %s\n" % kv for kv in sorted(cfg.items()))
+
+
+def merge_policy_specs(recs, anch, rng, quick, seed):
+    """Where the policy of a run comes from: (a) the command line, (b) only the [defaults] of --config FILE, (c) both with
+    different values, (d) nowhere (built-in).  Documented precedence: command line > [defaults] > built-in.  Cases are
+    pairs whose model result differs between the two policy values involved, so that the precedence is observable."""
+    specs = []
+    per = 10 if quick else 400
+    for corpus, opts in ((recs, MERGE_OPTS[:4]), (anch, MERGE_OPTS[4:])):
+        by_key = {}
+        for rec in corpus:
+            m = by_key.setdefault(rec["key"], {})
+            for c in rec["group"]["cfgs"]:
+                m[c] = rec
+        keys = sorted(by_key)
+        for xi, (name, short, builtin) in enumerate(MERGE_OPTS):
+            if (name, short, builtin) not in opts:
+                continue
+            cands = {m: [] for m in PMODES}
+            for key in keys:
+                cm = by_key[key]
+                for c, rec in cm.items():
+                    if rec["group"]["res"]["info"]:
+                        continue
+                    parts = c.split("/")
+                    for c2, rec2 in cm.items():
+                        p2 = c2.split("/")
+                        if rec2 is rec or rec2["group"]["res"]["info"] or any(p2[j] != parts[j] for j in range(5) if j != xi):
+                            continue
+                        # c and c2 differ in this option alone and the model gives them different results
+                        cands["cli"].append((c, p2[xi], rec))
+                        cands["both"].append((c, p2[xi], rec))
+                        if p2[xi] == builtin:
+                            cands["config"].append((c, builtin, rec))     # ignoring the file would give the built-in's result
+                        if parts[xi] == builtin:
+                            cands["absent"].append((c, p2[xi], rec))
+            for mode in PMODES:
+                pool = cands[mode]
+                for c, decoy, rec in rng.sample(pool, min(len(pool), per)):
+                    parts = c.split("/")
+                    res = rec["group"]["res"]
+                    cli, cfg, argv = {}, {}, []
+                    for yi, (n2, s2, b2) in enumerate(MERGE_OPTS):
+                        if yi == xi:
+                            if mode == "absent" and rng.random() < 0.5:
+                                cfg["x-" + n2] = decoy              # an unrelated key in the file changes nothing
+                            elif mode != "absent":
+                                _give(rng, n2, s2, mode, parts[yi], decoy, cli, cfg, argv)
+                        else:                                        # the other options arrive some way or other
+                            m2 = rng.choice(["cli", "config"] + (["absent"] if parts[yi] == b2 else []))
+                            if m2 != "absent":
+                                _give(rng, n2, s2, m2, parts[yi], "", cli, cfg, argv)
+                    cfg_keys = {k: v for k, v in cfg.items() if not k.startswith("x-")}
+                    fmt = _fmts(rec["l"] + rec["r"], rng, True, seed)[0]
+                    ls, ltext = _doc_text(rec["l"], fmt)
+                    rs, rtext = _doc_text(rec["r"], fmt)
+                    files = {"lhs" + ls: ltext, "rhs" + rs: rtext}
+                    names, stdin = ["lhs" + ls, "rhs" + rs], None
+                    rng.shuffle(argv)
+                    if cfg or mode == "absent":
+                        files["merge.ini"] = _ini(cfg)
+                        argv += rng.choice([["--config=merge.ini"], ["-c", "merge.ini"]])
+                    delivery = rng.choice(["ff", "f-", "fi"])
+                    if delivery == "f-":
+                        stdin, names[1] = files.pop("rhs" + rs), "-"
+                    elif delivery == "fi":
+                        stdin, names = files.pop("rhs" + rs), names[:1]
+                    else:
+                        argv.append("--nostdin")
+                    specs.append({
+                        "tool": "merge", "argv": argv + names, "files": files, "stdin": stdin, "o": o_of(),
+                        "exp": {"k": "merged" if res["ok"] else "mergeerr", "n": 1 if res["ok"] else 0}, "info": False,
+                        "cls": "policy:%s:%s" % (name, mode), "delivery": delivery, "output": None, "docfmt": "auto",
+                        "policy": {"cli": cli, "cfg": cfg_keys},
+                        "want": {"out": res["out"] if res["ok"] else None, "l": rec["l"], "r": rec["r"], "cfg": c},
+                    })
+    return specs
+
+
+def merge_stream_specs(recs, rng, quick, seed):
+    """Multi-document left-hand streams under matrix_merge (every left document x the right document) and merge_across
+    (document i with document i): the expected stream is the model's pairwise result for every pair; one impossible
+    pair - whichever document it is - fails the run (41 / 31) and nothing is delivered."""
+    from harness import absdoc
+    by_r = {}
+    for rec in recs:
+        if not rec["group"]["res"]["info"]:
+            by_r.setdefault(json.dumps(rec["r"], sort_keys=True), []).append(rec)
+    rkeys = sorted(by_r)
+    specs = []
+    want_classes = ("ok,ok", "bad,ok", "ok,bad", "ok,bad,ok", "bad,ok,ok")
+    per = 8 if quick else 250
+    for mode in ("matrix_merge", "merge_across"):
+        for cls in want_classes:
+            made = tries = 0
+            while made < per and tries < per * 40:
+                tries += 1
+                rk = rng.choice(rkeys)
+                c = rng.choice(rng.choice(by_r[rk])["group"]["cfgs"])
+                oks = [x for x in by_r[rk] if c in x["group"]["cfgs"] and x["group"]["res"]["ok"] and x["l"][0]["k"] != "s"]
+                bads = [x for x in by_r[rk] if c in x["group"]["cfgs"] and not x["group"]["res"]["ok"] and x["l"][0]["k"] != "s"]
+                if not oks or not bads:
+                    continue
+                chosen = [rng.choice(oks if k == "ok" else bads) for k in cls.split(",")]
+                h, a, o, s_, x = c.split("/")
+                r = chosen[0]["r"]
+                ltext = "".join(absdoc.concretise(x_["l"], "block") for x_ in chosen)
+                rdoc = absdoc.concretise(r, "block")
+                rtext = rdoc if mode == "matrix_merge" else rdoc * len(chosen)
+                allok = all(x_["group"]["res"]["ok"] for x_ in chosen)
+                files, names, stdin = {"lhs.yaml": ltext, "rhs.yaml": rtext}, ["lhs.yaml", "rhs.yaml"], None
+                delivery = rng.choice(["ff", "f-", "-f", "fi"])
+                argv = ["--multi-doc-mode=" + mode, "--document-format=yaml", "--hashes=" + h, "--arrays=" + a, "--aoh=" + o, "--sets=" + s_]
+                if delivery == "f-":
+                    stdin, names[1] = files.pop("rhs.yaml"), "-"
+                elif delivery == "-f":
+                    stdin, names[0] = files.pop("lhs.yaml"), "-"
+                elif delivery == "fi":
+                    stdin, names = files.pop("rhs.yaml"), names[:1]
+                else:
+                    argv.append("--nostdin")
+                output = "out.yaml" if rng.random() < 0.3 else None
+                if output:
+                    argv.append("--output=" + output)
+                specs.append({
+                    "tool": "merge", "argv": argv + names, "files": files, "stdin": stdin, "o": o_of(mode=mode),
+                    "exp": {"k": "merged" if allok else "mergeerr", "n": 0}, "info": False,
+                    "cls": "stream:%s:%s" % (mode, cls), "delivery": delivery, "output": output, "docfmt": "yaml",
+                    "policy": {"cli": {"hashes": h, "arrays": a, "aoh": o, "sets": s_}, "cfg": {}},
+                    "want": {"outs": [x_["group"]["res"]["out"] for x_ in chosen] if allok else None},
+                })
+                made += 1
+    return specs
+
+
+DIFF_POLICY = (("arrays", "-A", ("position", "value")), ("aoh", "-O", ("position", "dpos", "value", "key", "deep")))
+
+
+def diff_policy_specs(recs, rng, quick, seed):
+    """The same four ways for yaml-diff's --arrays / --aoh; the answer to deliver is the library's report under the
+    effective policy.  Pairs are kept whose report differs between the two values involved."""
+    from harness import absdoc
+    pairs = {}
+    for rec in recs:
+        l, r = rec["l"], rec["r"]
+        if l[0]["k"] == "seq" and r[0]["k"] == "seq" or any(n["k"] == "seq" and n["par"] for n in l) and any(n["k"] == "seq" and n["par"] for n in r):
+            pairs.setdefault(rec["key"], (l, r))
+    allp = [pairs[k] for k in sorted(pairs)]
+    rng.shuffle(allp)
+    per = 10 if quick else 300
+    specs = []
+    reports = []
+    for l, r in allp[:150 if quick else 3000]:
+        ltext, rtext = absdoc.concretise(l, "block"), absdoc.concretise(r, "block")
+        rep = {}
+        try:
+            for name, _, values in DIFF_POLICY:
+                for v in values:
+                    rep[(name, v)] = library_diff(ltext, rtext, ["-s"], **{name: v})
+        except Exception:      # noqa: BLE001 - the library raises under some policy: no oracle for this pair
+            continue
+        reports.append((l, r, ltext, rtext, rep))
+    for name, short, values in DIFF_POLICY:
+        cands = {m: [] for m in PMODES}
+        for l, r, ltext, rtext, rep in reports:
+            for v in values:
+                for v2 in values:
+                    if v2 != v and rep[(name, v)] != rep[(name, v2)]:
+                        cands["cli"].append((l, r, ltext, rtext, v, v2))
+                        cands["both"].append((l, r, ltext, rtext, v, v2))
+                        if v2 == "position":
+                            cands["config"].append((l, r, ltext, rtext, v, v2))
+                        if v == "position":
+                            cands["absent"].append((l, r, ltext, rtext, v, v2))
+        for mode in PMODES:
+            pool = cands[mode]
+            for l, r, ltext, rtext, v, decoy in rng.sample(pool, min(len(pool), per)):
+                cli, cfg, argv = {}, {}, []
+                if mode == "absent":
+                    cfg["x-" + name] = decoy
+                else:
+                    _give(rng, name, short, mode, v, decoy, cli, cfg, argv)
+                opts = list(rng.choice([[], ["-s"], ["--same"], ["-o"]]))
+                files = {"lhs.yaml": ltext, "rhs.yaml": rtext}
+                names, stdin = ["lhs.yaml", "rhs.yaml"], None
+                if cfg:
+                    files["diff.ini"] = _ini(cfg)
+                    argv += rng.choice([["--config=diff.ini"], ["-c", "diff.ini"]])
+                delivery = rng.choice(["ff", "f-", "-f"])
+                if delivery == "f-":
+                    stdin, names[1] = files.pop("rhs.yaml"), "-"
+                elif delivery == "-f":
+                    stdin, names[0] = files.pop("lhs.yaml"), "-"
+                specs.append({
+                    "tool": "diff", "argv": argv + opts + names, "files": files, "stdin": stdin, "o": o_of(),
+                    "exp": {"k": "", "n": 0}, "info": False, "cls": "policy:%s:%s" % (name, mode), "delivery": delivery,
+                    "policy": {"cli": cli, "cfg": {k: x for k, x in cfg.items() if not k.startswith("x-")}},
+                    "want": {"l": l, "r": r, "ltext": ltext, "rtext": rtext, "opts": opts, "eff": {name: v}},
+                })
     return specs
 
 
@@ -716,7 +937,8 @@ def execute(spec, how, scratch):
             after[name] = fh.read()
         if name not in before or int(os.stat(p).st_mtime) != OLD:
             touched.append(name)
-    lines = [l for l in cliobs.stdout_lines(res["out"]) if l != HELP_LINE]
+    # (ConsolePrinter.error and .warning write to stdout: their lines are not results)
+    lines = [l for l in cliobs.stdout_lines(res["out"]) if l != HELP_LINE and not l.startswith("WARNING:  ")]
     out = "\n".join(lines) + ("\n" if lines and res["out"].endswith("\n") else "")
     return {"status": res["status"], "code": cliobs.exit_code(res["status"]), "lines": lines, "out": out,
             "err": res["err"][-400:], "events": res["events"], "touched": touched,
@@ -835,6 +1057,20 @@ def _judge_merge(spec, ob):
         if text is not None:
             P.append(("touched", "a failed run delivered a document: %r" % text[:80]))
         return P, 0, written
+    if "outs" in w:
+        if w["outs"] is None:
+            if ob["code"] == 0:
+                P.append(("exit", "one pair of the streams cannot be merged in the model but exit status 0"))
+            if text is not None:
+                P.append(("touched", "a failed merge (exit %s) delivered a document: %r" % (ob["status"], text[:120])))
+        elif ob["code"] != 0 or text is None:
+            P.append(("exit", "every pair merges in the model; exit status %s, result %r; stderr %r" % (ob["status"], text and text[:80], ob["err"][-160:])))
+        else:
+            docs = cliobs.load_stream(text)
+            wants = [[dict(n, anchor="", alias=0) for n in d] for d in w["outs"]]
+            if docs is None or len(docs) != len(wants) or not all(cliobs.same_data(d, x) for d, x in zip(docs, wants)):
+                P.append(("document", "result stream %r is not the model's %s" % (text[:300], [absdoc.concretise(x, "flow").strip() for x in wants])))
+        return P, 0, written
     if w.get("rich"):
         if ob["code"] != 0 or text is None:
             P.append(("exit", "a single readable document; exit status %s, result %r" % (ob["status"], text)))
@@ -879,7 +1115,7 @@ def _judge_merge(spec, ob):
     return P, 0, written
 
 
-def library_diff(ltext, rtext, opts):
+def library_diff(ltext, rtext, opts, arrays=None, aoh=None):
     """The library's own report for the same two texts and options: [(symbol, path, body)], has_differences."""
     from types import SimpleNamespace
     from yamlpath.differ import Differ, DifferConfig
@@ -887,7 +1123,7 @@ def library_diff(ltext, rtext, opts):
     from yamlpath.enums import PathSeparators
     from harness import absdoc, cliobs
     ldata, rdata = absdoc.load(ltext), absdoc.load(rtext)
-    args = SimpleNamespace(arrays=None, aoh=None, config=None, debug=False, verbose=False, quiet=True)
+    args = SimpleNamespace(arrays=arrays, aoh=aoh, config=None, debug=False, verbose=False, quiet=True)
     differ = Differ(DifferConfig(absdoc.LOG, args), absdoc.LOG, ldata, ignore_eyaml_values=True)
     differ.compare_to(rdata)
     sep = PathSeparators.FSLASH if any(o in ("--pathsep=/", "-t/") for o in opts) else PathSeparators.DOT
@@ -913,12 +1149,23 @@ def _judge_diff(spec, ob):
         if ob["code"] != w["code"]:
             P.append(("exit", "expected exit status %d, got %s" % (w["code"], ob["status"])))
         return P, len(got), "none"
-    equal = absdoc.plain_data(w["l"]) == absdoc.plain_data(w["r"])
+    eff = w.get("eff")
     try:
-        lib, libdiffers = library_diff(w["ltext"], w["rtext"], w["opts"])
+        lib, libdiffers = library_diff(w["ltext"], w["rtext"], w["opts"], **(eff or {}))
         liberr = None
-    except Exception as ex:      # noqa: BLE001 - the library call itself fails: nothing to deliver
+    except Exception as ex:      # noqa: BLE001
         lib, libdiffers, liberr = None, None, type(ex).__name__
+    if eff is not None:
+        # a non-default comparison policy redefines which documents count as the same: the answer to deliver is the
+        # library's report under the EFFECTIVE policy (command line > [defaults] of --config > built-in)
+        if lib is None:
+            return P, len(got), "none"
+        if ob["code"] != (1 if libdiffers else 0):
+            P.append(("exit", "under %s the library reports %s, exit status %s" % (eff, "differences" if libdiffers else "none", ob["status"])))
+        if [tuple(e) for e in got] != lib:
+            P.append(("entries", "printed entries %r; under the effective policy %s the library's report gives %r" % (got[:4], eff, lib[:4])))
+        return P, len(got), "none"
+    equal = absdoc.plain_data(w["l"]) == absdoc.plain_data(w["r"])
     if ob["code"] not in (0, 1) or (ob["code"] == 0) != equal:
         if liberr:
             cause = "differ-raises-" + liberr
@@ -1054,7 +1301,7 @@ def _work(items):
         for idx, spec, how, twin_events in items:
             ob = execute(spec, how, scratch)
             P, nlines, doc = judge(spec, ob)
-            ev = cliobs.finish(spec["tool"], {"events": ob["events"], "status": ob["status"]}, nlines, doc, expected=twin_events)
+            ev = _with_policy(spec, cliobs.finish(spec["tool"], {"events": ob["events"], "status": ob["status"]}, nlines, doc, expected=twin_events))
             out.append({"idx": idx, "how": how, "problems": P, "code": ob["code"], "status": ob["status"], "events": ev,
                         "lines": ob["lines"][:8], "nlines": nlines, "doc": doc, "touched": ob["touched"],
                         "result": _result_text(spec, ob)[0] if spec["tool"] in ("set", "merge") else None,
@@ -1065,6 +1312,17 @@ def _work(items):
 
 
 _SCRATCH = [None]
+POLICY_OPTS = {"merge": ("hashes", "arrays", "aoh", "sets", "anchors"), "diff": ("arrays", "aoh")}
+
+
+def _with_policy(spec, ev):
+    """The args event also says what the user wrote for each policy option: on the command line, in [defaults]."""
+    pol = spec.get("policy") or {}
+    keys = POLICY_OPTS.get(spec["tool"], ())
+    if ev and ev[0]["ph"] == "args":
+        ev[0] = dict(ev[0], cli={k: pol.get("cli", {}).get(k, "") for k in keys}, cfg={k: pol.get("cfg", {}).get(k, "") for k in keys})
+    return ev
+
 
 
 def _sig(spec, kind):
@@ -1089,7 +1347,8 @@ def _tlc_table(ctx):
         table.setdefault(key, set()).add(row["code"])
     os.remove(f)
     # the theorems are not vacuous: the design "the status of the last source wins" must be refuted
-    for cfg, inv in (("MC_YCli_lastwins.cfg", "InvRunHonest"), ("MC_YCli_stdinonly.cfg", "InvDeliveryIndependent")):
+    for cfg, inv in (("MC_YCli_lastwins.cfg", "InvRunHonest"), ("MC_YCli_stdinonly.cfg", "InvDeliveryIndependent"),
+                     ("MC_YCli_argdefault.cfg", "InvRunHonest")):
         d = core.run_tlc(ctx, "MC_YCli", cfg, env={"CASES_OUT": ctx.path("unused.cases")}, workers=2, timeout=600)
         if d["violated"] != inv:
             raise core.MachineryError("the deviating design %s was not refuted by %s (%s; see %s)" % (cfg, inv, d["violated"], d["log"]))
@@ -1102,7 +1361,8 @@ class _Generators:
     def __init__(self, ctx):
         self.jobs = {"q": ("MC_Query", "MC_YCli_query_q.cfg" if ctx.quick else "MC_Query_q1.cfg"),
                      "e": ("MC_Edit", "MC_YCli_edit_q.cfg" if ctx.quick else "MC_YCli_edit_t.cfg"),
-                     "m": ("MC_Merge", "MC_YCli_merge_q.cfg" if ctx.quick else "MC_Merge_q.cfg")}
+                     "m": ("MC_Merge", "MC_YCli_merge_q.cfg" if ctx.quick else "MC_Merge_q.cfg"),
+                     "a": ("MC_Merge", "MC_YCli_merge_anch.cfg")}
         self.res, self.errs, self.ths = {}, {}, {}
         for tag, (module, cfg) in self.jobs.items():
             self.ths[tag] = threading.Thread(target=self._one, args=(ctx, tag, module, cfg))
@@ -1154,9 +1414,10 @@ def _build(tool, gen, rng, per, ctx):
     if tool == "set":
         return set_specs(gen["e"], gen["q"], rng, per, ctx.quick, ctx.seed), 0
     if tool == "merge":
-        return merge_specs(gen["m"], rng, per, ctx.quick, ctx.seed), 0
+        return (merge_specs(gen["m"], rng, per, ctx.quick, ctx.seed) + merge_policy_specs(gen["m"], gen["a"], rng, ctx.quick, ctx.seed)
+                + merge_stream_specs(gen["m"], rng, ctx.quick, ctx.seed)), 0
     if tool == "diff":
-        return diff_specs(gen["m"], rng, per, ctx.quick, ctx.seed), 0
+        return diff_specs(gen["m"], rng, per, ctx.quick, ctx.seed) + diff_policy_specs(gen["m"], rng, ctx.quick, ctx.seed), 0
     if tool == "validate":
         return validate_specs(gen["q"], rng, per, ctx.quick, ctx.seed)
     return paths_specs(gen["q"], gen["e"], rng, per, ctx.quick, ctx.seed), 0
@@ -1211,7 +1472,7 @@ def _flush(ctx, pending, table, tot, accepted, rs):
     del pending[:]
 
 
-NEEDS = {"get": "q", "set": "qe", "validate": "q", "paths": "qe", "merge": "m", "diff": "m"}
+NEEDS = {"get": "q", "set": "qe", "validate": "q", "paths": "qe", "merge": "ma", "diff": "m"}
 
 
 def run(ctx):
@@ -1230,6 +1491,7 @@ def run(ctx):
     stats = {t: {"runs": 0, "info": 0, "info_mismatch": 0, "nonzero": 0, "stdin": 0, "implicit": 0, "json": 0, "crash": 0} for t in TOOLS}
     tot = {"records": 0, "sub": 0, "boundary": 0, "rejected": 0, "want": 0, "uncovered": 0, "dropped": 0}
     outcome_classes = set()
+    policy_runs = {}              # runs per (tool, policy option, where the value was given)
     accepted = []                 # a few accepted records per batch, for the self-test
     pending = []                  # (spec, result) pairs waiting for trace validation
     sample = None
@@ -1273,6 +1535,8 @@ def run(ctx):
                 st["json"] += any(n.endswith(".json") for n in s["files"])
                 st["crash"] += isinstance(r["status"], str)
                 outcome_classes.add((s["tool"], s["cls"], _via(s), r["code"]))
+                if s["cls"].startswith("policy:"):
+                    policy_runs[s["tool"] + ":" + s["cls"][7:]] = policy_runs.get(s["tool"] + ":" + s["cls"][7:], 0) + 1
                 if s["info"]:
                     st["info"] += 1
                     st["info_mismatch"] += bool(r["problems"])
@@ -1297,7 +1561,7 @@ def run(ctx):
     # ---- binding self-test: corrupted records must be rejected
     corrupt = []
     for rec in accepted:
-        for what in ("code", "lines", "via", "outcome", "drop"):
+        for what in ("code", "lines", "via", "outcome", "drop", "policy"):
             c = json.loads(json.dumps(rec))
             c["id"] = len(corrupt)
             tr = c["tr"]
@@ -1318,6 +1582,11 @@ def run(ctx):
                 if not loads:
                     continue
                 loads[0]["via"] = "pipe"
+            elif what == "policy":
+                works = [e for e in tr if e["ph"] == "work" and e.get("policy")]
+                if not works:
+                    continue
+                works[-1]["policy"] = dict(works[-1]["policy"], aoh="no-such-policy")
             elif what == "outcome":
                 works = [e for e in tr if e["ph"] == "work"]
                 if not works:
@@ -1338,14 +1607,15 @@ def run(ctx):
         "rule": "one evaluation = one run of a real main() (in-process, or as a real process for the sample); runs per tool = model cases "
                 "(MC_Query / MC_Edit / MC_Merge) x delivery (file, '-', implicit STDIN) x notation / input format / output options; non-trivial = distinct "
                 "(tool, input class, delivery, exit status) combinations observed",
-        "per_tool": stats, "subprocess_runs": tot["sub"], "boundary_mismatches": tot["boundary"],
+        "per_tool": stats, "policy_source_runs": policy_runs, "subprocess_runs": tot["sub"], "boundary_mismatches": tot["boundary"],
         "traces_validated_against_impl": tot["records"], "traces_rejected": tot["rejected"],
         "model_outcome_vs_exit_mismatches": tot["want"],
         "outcome_classes_outside_emitted_table": tot["uncovered"], "table_rows": sum(len(v) for v in table.values()),
         "deviating_designs_refuted": ["last-source-wins (Sticky = FALSE) violates InvRunHonest",
+                                      "a policy option with a parser default of its own (ConfigDefaultsHonoured = FALSE) violates InvRunHonest",
                                       "yaml-merge before the STDIN-only repair (StdinOnlyMerge = FALSE) violates InvDeliveryIndependent"],
         "binding_selftest": {"corrupted_records": len(corrupt), "rejected": len(corrupt) - len(missed),
-                             "fields": ["exit code", "stdout lines / result document", "delivery", "library outcome", "missing phase"]},
+                             "fields": ["exit code", "stdout lines / result document", "delivery", "library outcome", "missing phase", "effective policy"]},
         "model_drift": sum(st["info_mismatch"] for st in stats.values()),
         "validate_texts_dropped_by_ruamel_crosscheck": tot["dropped"],
         "exhaustive": False,
@@ -1382,7 +1652,7 @@ def replay(path):
     print("yaml-%s %s [%s] -> exit %s, lines %r" % (spec["tool"], " ".join(spec["argv"]), how, ob["status"], ob["lines"][:6]))
     for kind, text in P:
         print(kind, "::", text)
-    ev = cliobs.finish(spec["tool"], {"events": ob["events"], "status": ob["status"]}, nlines, doc, expected=twin)
+    ev = _with_policy(spec, cliobs.finish(spec["tool"], {"events": ob["events"], "status": ob["status"]}, nlines, doc, expected=twin))
     v = _validate_traces(ctx, [{"id": 0, "tool": spec["tool"], "o": spec["o"], "tr": ev, "code": ob["code"], "exp": spec["exp"]}], "replay")[0]
     print("events:", json.dumps(ev))
     print("YCli verdict:", json.dumps(v))
